@@ -793,7 +793,19 @@ def op_setitem(P):
         raise Skip()
     as_flat = rng.random() < 0.3
     dt = str(a.dense.dtype)
-    other, od, _, _ = gen.rand_array(rng, view.legs, dtype=dt, qtotal=view.qtotal, labels=None, fill='all')
+    # (the right-hand side may lack blocks which the target region has: the assignment then has to clear them)
+    other, od, _, _ = gen.rand_array(rng, view.legs, dtype=dt, qtotal=view.qtotal, labels=None, fill=None if rng.random() < 0.5 else 'all')
+    if not as_flat and view.stored_blocks >= 1 and other.stored_blocks > view.stored_blocks and rng.random() < 0.6:
+        # the target region lacks a block the right-hand side has, and the right-hand side lacks one the target has:
+        # as many (or more) blocks on the right, but not the same ones
+        q_rm = [int(x) for x in np.asarray(view._qdata)[int(rng.integers(view.stored_blocks))]]
+        sl = tuple(slice(int(l.slices[q]), int(l.slices[q + 1])) for l, q in zip(view.legs, q_rm))
+        od = od.copy()
+        od[sl] = 0
+        from tenpy.linalg import np_conserved as npc_
+        other = npc_.Array.from_ndarray(od, view.legs, dtype=np.dtype(dt), qtotal=view.qtotal)
+        other.ipurge_zeros(0.)
+        P.count('setitem.rhs_lacks_a_block_of_the_target')
     P.log.append(['setitem', {'a': P.slots.index(a), 'inds': repr(inds), 'other': 'flat' if as_flat else 'npc'}])
     for k in kinds:
         P.count('setitem.' + k)
